@@ -37,6 +37,8 @@ impl MpcCase {
 #[derive(Default)]
 pub struct Adversary {
     pub proxy: Option<Proxy>,
+    pub hold: Option<crate::sim::net::HoldPred>,
+    pub late: Option<crate::sim::net::LateProxy>,
     pub crash_after: Option<(usize, usize)>,
     pub keep_open: bool,
     /// arms taps; runs on the world thread after hook reset
@@ -63,6 +65,8 @@ pub fn run_mpc_ext(case: &MpcCase, adv: Adversary, cfg: &ExecCfg, override_args:
     {
         let mut net = world.net.lock().unwrap();
         net.proxy = adv.proxy;
+        net.hold = adv.hold;
+        net.late = adv.late;
         net.crash_after = adv.crash_after;
         net.keep_open = adv.keep_open;
     }
